@@ -192,8 +192,9 @@ def _dots(xs):
     return ".".join(xs) if xs else "~"
 
 
-def _show_ops(ops):
-    return _dots(("+" if o[0] == "add" else "-") + "%d@%d" % (o[1].hash() if o[1] is not None else -1, o[2]) for o in ops)
+def _show_ops(ops, hid=None):
+    hid = hid or (lambda x: x)
+    return _dots(("+" if o[0] == "add" else "-") + "%d@%d" % (hid(o[1].hash()) if o[1] is not None else -1, o[2]) for o in ops)
 
 
 # ------------------------------------------------------------------ implementation
@@ -258,13 +259,24 @@ def _show_item(t):
 class _Runner(object):
     """one BlockChain object driven step by step; `out` collects what each step lets the outside see"""
 
+    # hooks overridden by _RealRunner (real Block header objects): header object of an id, id of a hash the chain hands
+    # out, the key a caller would look an id up with
+    def mk(self, h):
+        return Hdr(h, *self.hdrs[h])
+
+    def hid(self, x):
+        return x
+
+    def key(self, h):
+        return h
+
     def __init__(self, anchor, hdrs, shared_storage=False):
         self.hdrs = hdrs
         self.cb_seen = []
         self.lk_seen = []
         self.q = _Q()
         kw = {} if shared_storage else {"unlocked_block_storage": {}}
-        self.bc = BlockChain(anchor, did_lock_to_index_f=lambda items, start: self.lk_seen.append((start, list(items))), **kw)
+        self.bc = BlockChain(self.key(anchor), did_lock_to_index_f=lambda items, start: self.lk_seen.append((start, list(items))), **kw)
 
         def cb(bc, ops):
             self.cb_seen.append(list(ops))
@@ -289,39 +301,113 @@ class _Runner(object):
                 return
             s_lk = "~"
             if k == "A":
-                ops = bc.add_headers([Hdr(h, *hdrs[h]) for h in body])
-                s_ops = _show_ops(ops)
-                s_cb = _dots(_show_ops(o) for o in self.cb_seen) if self.cb_seen else "none"
+                ops = bc.add_headers([self.mk(h) for h in body])
+                s_ops = _show_ops(ops, self.hid)
+                s_cb = _dots(_show_ops(o, self.hid) for o in self.cb_seen) if self.cb_seen else "none"
             elif k == "P":
-                bc.preload_locked_blocks([Hdr(h, *hdrs[h]) for h in body])
+                bc.preload_locked_blocks([self.mk(h) for h in body])
                 s_ops, s_cb = "~", "~"
             else:
                 bc.lock_to_index(body)
                 s_ops, s_cb = "~", "~"
                 if self.lk_seen:
-                    s_lk = "/".join("%d:%s" % (st, _dots(_show_item(t) for t in items)) for st, items in self.lk_seen)
+                    s_lk = "/".join("%d:%s" % (st, _dots(_show_item(self.tup(t)) for t in items)) for st, items in self.lk_seen)
             n = bc.length()
-            chain = [bc.hash_for_index(i) for i in range(n)]
-            tups = [bc.tuple_for_index(i) for i in range(n)]
-            neg = [bc.hash_for_index(-i - 1) for i in range(n)]
-            oob = _hx(lambda: bc.hash_for_index(-n - 1)) + "," + _hx(lambda: bc.hash_for_index(n))
+            chain = [self.hid(bc.hash_for_index(i)) for i in range(n)]
+            tups = [self.tup(bc.tuple_for_index(i)) for i in range(n)]
+            neg = [self.hid(bc.hash_for_index(-i - 1)) for i in range(n)]
+            oob = _hx(lambda: self.hid(bc.hash_for_index(-n - 1))) + "," + _hx(lambda: self.hid(bc.hash_for_index(n)))
             try:
-                nt = _show_item(bc.tuple_for_index(-1))
+                nt = _show_item(self.tup(bc.tuple_for_index(-1)))
             except IndexError:
                 nt = "E"
             self.out.append("ops=%s;cb=%s;lk=%s;len=%d;locked=%d;chain=%s;last=%d;idx=%s;tup=%s;neg=%s;oob=%s;nt=%s;ul=%d;known=%s;q=%s" % (
-                s_ops, s_cb, s_lk, n, bc.locked_length(), _dots(map(str, chain)), bc.last_block_hash(),
-                _dots("%d:%s" % (h, "-" if bc.index_for_hash(h) is None else bc.index_for_hash(h)) for h in hdrs),
+                s_ops, s_cb, s_lk, n, bc.locked_length(), _dots(map(str, chain)), self.hid(bc.last_block_hash()),
+                _dots("%d:%s" % (h, "-" if bc.index_for_hash(self.key(h)) is None else bc.index_for_hash(self.key(h))) for h in hdrs),
                 _dots(_show_item(t) for t in tups),
                 _dots(map(str, neg)), oob, nt, bc.unlocked_length(),
-                "".join("1" if bc.is_hash_known(h) else "0" for h in hdrs) or "~",
-                _show_ops(self.q)))
+                "".join("1" if bc.is_hash_known(self.key(h)) else "0" for h in hdrs) or "~",
+                self.show_q()))
         except Exception as e:  # noqa: BLE001
             self.out.append("err " + type(e).__name__)
             self.dead = True
 
+    def tup(self, t):
+        return (self.hid(t[0]), self.hid(t[1]), t[2])
+
+    def show_q(self):
+        return _show_ops(self.q, self.hid)
+
     def result(self):
         return "|".join(self.out) if self.out else "~"
+
+
+class _RealRunner(_Runner):
+    """the same history on REAL header objects of a network's Block class, each parsed from its wire bytes (so that
+    previous_block_hash is what the wire parser produces and hash() what the class computes); ids <-> 32-byte hashes are
+    translated at the boundary, lookups are made with plain bytes as a caller holding a hash from the wire would"""
+
+    def __init__(self, net, anchor, hdrs):
+        import hashlib, io
+        import msglib as MS
+        from pycoin.networks.registry import network_for_netcode
+        self.net = network_for_netcode(net.upper())
+        self._io, self._MS = io, MS
+        self._bytes = {}     # id -> header bytes
+        self._h = {}         # id -> 32-byte hash (plain bytes)
+        self._id = {}        # plain bytes -> id
+        self._abs = hdrs
+        self._sha = lambda b: hashlib.sha256(hashlib.sha256(b).digest()).digest()
+        for h in sorted(set(hdrs) | {anchor} | {p for p, _w in hdrs.values()}):
+            self._real(h)
+        _Runner.__init__(self, anchor, hdrs)
+
+    def _real(self, h):
+        if h in self._h:
+            return self._h[h]
+        if h not in self._abs:
+            x = self._sha(b"header that was never delivered %d" % h)      # the anchor, or a parent nobody delivers
+        else:
+            p, w = self._abs[h]
+            prev = self._real(p)
+            root = self._sha(b"merkle root of %d" % h)
+            if self.net.symbol.lower() in ("btg", "xtg"):
+                # Equihash solutions of different lengths: serialised headers differ in length
+                raw = self._MS.btg_header_bytes(2, prev, root, 491407 + h, 1700000000 + h, w, root, bytes([h & 255]) * (20 + 37 * (h % 4)))
+            else:
+                raw = self._MS.header_bytes(2, prev, root, 1700000000 + h, w, h)
+            self._bytes[h] = raw
+            x = bytes(self.net.block.parse_as_header(self._io.BytesIO(raw)).hash())
+        self._h[h] = x
+        self._id[x] = h
+        return x
+
+    def mk(self, h):
+        return self.net.block.parse_as_header(self._io.BytesIO(self._bytes[h]))
+
+    def hid(self, x):
+        return self._id.get(bytes(x), -2) if x is not None else -1
+
+    def key(self, h):
+        return self._real(h)
+
+    def step(self, k, body, rank):
+        _Runner.step(self, k, body, [self._real(r) for r in rank])
+
+    def show_q(self):
+        """real Block objects compare by identity, so `_update_q` does not meld an add with the remove of a RE-DELIVERED copy of
+        the same header (a new object); what the property speaks about is what the queued ops replay to: that list is shown as
+        one add per position (the form the model's melded queue has), or the raw queue when it does not replay"""
+        lst = []
+        for o in self.q:
+            hh = self.hid(o[1].hash()) if o[1] is not None else -1
+            if o[0] == "add" and o[2] == len(lst):
+                lst.append(hh)
+            elif o[0] == "remove" and o[2] == len(lst) - 1 and lst[-1] == hh:
+                lst.pop()
+            else:
+                return _show_ops(self.q, self.hid)
+        return _dots("+%d@%d" % (hh, i) for i, hh in enumerate(lst))
 
 
 def parse_two(op: str):
@@ -393,6 +479,17 @@ def impl(op: str) -> str:
         return impl_inv(op)
     if op.startswith("c15two "):
         return impl_two(op)
+    if op.startswith("c15real "):
+        net, rest = op.split(" ", 2)[1:]
+        anchor, rev, hdrs, steps = parse_op("c15 " + rest)
+        _Script.rev = rev
+        try:
+            r = _RealRunner(net, anchor, hdrs)
+        except Exception as e:  # noqa: BLE001
+            return "err build " + type(e).__name__
+        for k, body, rank in steps:
+            r.step(k, body, rank)
+        return "ok " + r.result()
     if not op.startswith("c15 "):
         return "bad-op"
     anchor, rev, hdrs, steps = parse_op(op)
@@ -436,6 +533,10 @@ def _best_weight(anchor, delivered, hdrs, locked):
 
 
 def oracle(op: str, out: str):
+    if op.startswith("c15real "):
+        if out.startswith("err build"):
+            return "real header objects could not be built / parsed: " + out
+        return oracle("c15 " + op.split(" ", 2)[2], out)
     if op.startswith("c15q "):
         a = op.split(" ")
         want = _ref_update_q(_parse_qops(a[1]), _parse_qops(a[2]))
@@ -570,6 +671,8 @@ KNOWN: dict = {}
 
 
 def trivial(op: str) -> bool:
+    if op.startswith("c15real "):
+        return True   # a second look (other header class) at a history already counted
     if op.startswith("c15q "):
         return op.split(" ")[2] == "~"
     if op.startswith("c15inv "):
@@ -585,6 +688,12 @@ def trivial(op: str) -> bool:
 
 
 def neighbours(op, rng):
+    if op.startswith("c15real "):
+        net = op.split(" ")[1]
+        for o in neighbours("c15 " + op.split(" ", 2)[2], rng):
+            if o.startswith("c15 "):
+                yield "c15real %s %s" % (net, o[4:])
+        return
     if op.startswith("c15q "):
         yield op
         return
@@ -734,6 +843,10 @@ def gen(ctx, emit):
             pool.append(hist)
         if rng.random() < (0.15 if ctx.thorough else 0.4):
             emit("c15inv" + op[3:], "finder-invariant")
+        # the same history on real header objects of a network's Block class (parsed from wire bytes); weights are the
+        # headers' difficulty fields.  Bitcoin and Bitcoin Gold (variable-length headers).
+        if rng.random() < (0.004 if ctx.thorough else 0.02) and all(0 <= w < 2 ** 32 for _p, w in hist[2].values()):
+            emit("c15real %s %s" % (rng.choice(["btc", "btg"]), op[4:]), "real-headers")
     # boundary corpus: DESIGN §8 row 12 and relatives are in corpus/C15.txt; here the systematic part
     for n in (1, 2, 3):
         for hist in small_histories(n):
